@@ -9,14 +9,16 @@ CONSTANTS MaxCalls,    \* constructor calls per thread
           ArgKeys,     \* keys a caller may pass to new_with_key
           FreshKeys,   \* what key generation can return
           InitSts,     \* initial file states explored
-          InitModes    \* initial modes of an existing file
+          InitModes,   \* initial modes of an existing file
+          CtorSet,     \* constructors explored
+          DirSet       \* "none" (parent directory absent) / "pre" (present) for a missing file
 
 VARIABLE calls
 
 mcvars == <<vars, calls>>
 
 InitFiles ==
-    (IF "missing" \in InitSts THEN {MissingFile("none"), MissingFile("pre")} ELSE {}) \cup
+    (IF "missing" \in InitSts THEN {MissingFile(d) : d \in DirSet} ELSE {}) \cup
     {[st |-> s, key |-> IF s = "enc" THEN "k1" ELSE NoKey, mode |-> m, dmode |-> "pre",
       data |-> IF s \in {"plain", "enc"} THEN {"d0"} ELSE {}] : s \in InitSts \ {"missing"}, m \in InitModes}
 
@@ -33,7 +35,7 @@ AllDone == \A t \in Threads : th[t].pc = "idle" /\ th[t].h = NoPath /\ calls[t] 
 MCNext ==
     \/ \E t \in Threads :
          \/ /\ calls[t] < MaxCalls
-            /\ \E c \in Ctors, p \in Paths, k \in ArgKeys \cup {NoKey} : Begin(t, c, p, k)
+            /\ \E c \in CtorSet, p \in Paths, k \in ArgKeys \cup {NoKey} : Begin(t, c, p, k)
             /\ calls' = [calls EXCEPT ![t] = @ + 1]
          \/ /\ \/ Silent(t) \/ GetFast(t) \/ GetLocked(t) \/ GetExisting(t)
                \/ \E k \in FreshKeys \ {g.k : g \in hist.gen} : GenSet(t, k)
